@@ -51,7 +51,7 @@ over the unit number carrier, so the hypothesis of `eval_fuel_mono` is satisfiab
 example : ∃ (r : List (Out Unit)),
     @eval Unit ⟨fun _ => (), fun _ => some (), id, fun _ _ => .eq, fun _ _ => true, fun _ => none,
         fun _ => 0, fun _ => some "0", fun _ _ => (), fun _ _ => (), fun _ _ => (), fun _ _ => none,
-        fun _ _ => none, id, fun _ _ => none, fun _ => false, fun _ => false, (), (), fun _ => "u", fun _ _ _ => none⟩
+        fun _ _ => none, id, fun _ _ => none, fun _ => false, fun _ => false, (), (), fun _ => "u", fun _ _ _ => none, fun _ => false⟩
       {} 3 (.iterate (.index .identity (.lit (.str "a")))) .nil
       (.obj [("a", .arr [.null, .bool true])]) .off = some r :=
   ⟨_, rfl⟩
